@@ -37,7 +37,7 @@ def gen_doc(rng, specials=False, imports=True, resets=True):
     for k in range(nimp):
         href = rng.choice(['lib%d.cellml' % k, 'sub/dir/lib%d.xml' % k, 'lib.cellml?version=%d' % k])
         if specials or rng.random() < 0.25:
-            href = rng.choice(['lib.cellml?a=1&b=%d' % k, 'lib%d.cellml?x="q"&y' % k]) if not specials else rng.choice(['lib.cellml?a=1&b=%d' % k, 'my lib %d.cellml' % k, 'café_%d.cellml' % k, 'a<b>%d.cellml' % k])
+            href = rng.choice(['lib.cellml?a=1&b=%d' % k, 'lib%d.cellml?x=q&y=2' % k]) if not specials else rng.choice(['lib.cellml?a=1&b=%d' % k, 'my lib %d.cellml' % k, 'café_%d.cellml' % k, 'a<b>%d.cellml' % k])
         inner = []
         for j in range(rng.randint(1, 2)):
             if rng.random() < 0.5:
@@ -46,7 +46,7 @@ def gen_doc(rng, specials=False, imports=True, resets=True):
             else:
                 n = 'ic%d_%d' % (k, j); imp_comps.append(n)
                 inner.append('    <component%s%s%s/>' % (att('component_ref', 'ref_%s' % n), att('name', n), idatt()))
-        mixed = any('<units' in x for x in inner) and any('<component' in x for x in inner)
+        mixed = len(inner) > 1      # an import source shared by several entities: its id is counted once per entity by the validator (known finding C04-shared-import-id)
         out.append('  <import xmlns:xlink="http://www.w3.org/1999/xlink"%s%s>' % (att('xlink:href', href), '' if (mixed and not specials) else idatt()))
         out += inner
         out.append('  </import>')
@@ -130,7 +130,7 @@ def gen_doc(rng, specials=False, imports=True, resets=True):
         if cvars[c] and rng.random() < 0.5:
             v = cvars[c][0]
             sp = rng.choice(['', '\n      ', '   '])
-            body.append('    <math xmlns="%s"%s>%s<apply>%s<eq/><ci>%s</ci><cn cellml:units="%s">%s</cn></apply>%s</math>' % (MML, idatt(0.2), sp, sp, v['name'], v['units'], rng.choice(['1', '2.5', '1e3']), sp))
+            body.append('    <math xmlns="%s"%s>%s<apply>%s<eq/><ci>%s</ci><cn cellml:units="%s">%s</cn></apply>%s</math>' % (MML, idatt(0.2), sp, sp, v['name'], v['units'], rng.choice(['1', '2.5', '1000']), sp))
         if body:
             out.append('  <component%s%s>' % (att('name', c), idatt()))
             out += body
